@@ -210,6 +210,103 @@ def runCalls (env : Env) : Cache → List (User × String × Target) → List Bo
     let (r, c1) := hasPermC env c u p x
     r :: runCalls env c1 rest
 
+/-! ### the per-THREAD caches `local.user_groups_cache` / `local.user_roles_cache` and the life of a db_session
+
+`get_user_groups` and `get_user_roles` as coded: they answer from thread-local dicts that outlive the session cache
+(`cache.perm_cache` dies with the SessionCache); `DBSessionContextManager._commit_or_rollback` clears both dicts in its
+`finally:` — on every exit, whether the session commits, rolls back, or its commit fails. -/
+
+structure Local where
+  groups : List (Nat × List String)             -- `local.user_groups_cache`: user ↦ frozenset (None is never stored)
+  roles : List ((Nat × Obj) × List String)      -- `local.user_roles_cache[user][obj]`
+  deriving Repr
+
+/-- `get_user_groups(user)` with `local.user_groups_cache` -/
+def getUserGroupsL (env : Env) (l : Local) : User → List String × Local
+  | none => (["anybody"], l)                    -- `cache.get(None)` misses, then `return anybody_frozenset`
+  | some u =>
+    match l.groups.lookup u with
+    | some r => (r, l)                          -- `if result is not None: return result`
+    | none =>
+      let r := "anybody" :: env.groupsOf u
+      (r, { l with groups := (u, r) :: l.groups })
+
+/-- `get_user_roles(user, obj)` with `local.user_roles_cache[user]` -/
+def getUserRolesL (env : Env) (l : Local) (user : User) (o : Obj) : List String × Local :=
+  match user with
+  | none => ([], l)
+  | some u =>
+    match l.roles.lookup (u, o) with
+    | some r => (r, l)
+    | none =>
+      let r := (if env.userObj u = some o then ["self"] else []) ++ env.rolesOf u o
+      (r, { l with roles := ((u, o), r) :: l.roles })
+
+/-- the state a `has_perm` call sees: the session's `perm_cache` and the thread's caches -/
+structure Sess where
+  perm : Cache
+  loc : Local
+
+/-- `has_perm(user, perm, x)` with all three caches threaded through -/
+def hasPermS (env : Env) (s : Sess) (user : User) (perm : String) (x : Target) : Bool × Sess :=
+  if x.hidden then (false, s)
+  else
+    let ar := accessRules env.rules x.entityOf perm
+    if ar.isEmpty then (false, s)
+    else match s.perm.get (user, perm, .x x) with
+      | some r => (r, s)
+      | none =>
+        let (ug, l1) := getUserGroupsL env s.loc user                       -- `user_groups = get_user_groups(user)`
+        let (result, l2) : Bool × Local := match x with
+          | .entity e => (entityLoop ug e ar, l1)
+          | .attr a =>
+            (attrLoop ug a.entity a.id a.reverse
+              (match a.reverse with | some (_, re) => accessRules env.rules re perm | none => []) ar, l1)
+          | .obj o =>
+            let (ur, l2) := getUserRolesL env l1 user o                     -- `user_roles = get_user_roles(user, obj)`
+            (objLoop ug ur (getObjectLabels env o) o.entity ar, l2)
+        (result, { perm := s.perm.set (user, perm, .perm perm) result, loc := l2 })
+
+/-- how a db_session ends -/
+inductive ExitKind where
+  | commit            -- normal exit or an allowed exception: `commit()` succeeds
+  | rollback          -- a non-allowed exception: `rollback()`
+  | commitFails       -- `commit()` raises
+  deriving DecidableEq, Repr
+
+/-- `_commit_or_rollback`: whatever branch of the `try:` ran, the `finally:` clears both thread-local dicts -/
+def exitSession (k : ExitKind) (l : Local) : Local :=
+  let l1 := match k with
+    | .commit => l            -- `commit(); cache.release()`
+    | .rollback => l          -- `rollback()`
+    | .commitFails => l       -- `commit()` raised; control goes to `finally:`
+  { l1 with groups := [], roles := [] }          -- `local.user_groups_cache.clear(); local.user_roles_cache.clear()`
+
+/-- the variant that clears only after a successful commit (NOT the code; used to show the theorem is sensitive) -/
+def exitSessionCommitOnly (k : ExitKind) (l : Local) : Local :=
+  match k with
+  | .commit => { l with groups := [], roles := [] }
+  | _ => l
+
+/-- the calls of one session, on the thread's caches; a new SessionCache (empty `perm_cache`) per session -/
+def runSessionCalls (env : Env) : Sess → List (User × String × Target) → List Bool × Sess
+  | s, [] => ([], s)
+  | s, (u, p, x) :: rest =>
+    let (r, s1) := hasPermS env s u p x
+    let (rs, s2) := runSessionCalls env s1 rest
+    (r :: rs, s2)
+
+/-- a thread's life: a sequence of db_sessions; between two sessions the world (what the getters answer, even the
+    rules) may change — `env` is per session -/
+def runThreadWith (exit : ExitKind → Local → Local) :
+    Local → List (Env × List (User × String × Target) × ExitKind) → List (List Bool)
+  | _, [] => []
+  | l, (env, calls, k) :: rest =>
+    let (rs, s) := runSessionCalls env { perm := [], loc := l } calls
+    rs :: runThreadWith exit (exit k s.loc) rest
+
+def runThread := runThreadWith exitSession
+
 /-! ### `Database.to_json`: which objects reach the output -/
 
 inductive JErr where
